@@ -241,15 +241,13 @@ def evaluate(r, prop, known):
                 lemma_errs.setdefault(l['name'], []).append(e)
                 loose.remove(e)
                 break
-    # errors that belong to no contract (spec module, unannotated helper): undecided for everybody
+    # errors inside a function that has no contract (a helper introduced by a refactoring, typically): without a precondition its
+    # body cannot be judged, so this is never an alarm; it makes the properties of the file undecided
     for e in loose:
-        if e['status'] == 'refuted' and e['fn'][2] is not None:
-            # a function without contract failed its implicit safety obligations: totality
-            if prop == 'C01':
-                obligations.append(('%s::%s:safety' % (e['fn'][0], e['fn'][2]), 'no panic / overflow / out-of-bounds'))
-                failures.append(dict(ob='%s::%s:safety' % (e['fn'][0], e['fn'][2]), err=e, tags=['C01']))
-        else:
-            undecided.append('unattributed verifier message: ' + e['kind'])
+        rel = e['fn'][0]
+        file_tags = set(t for c in asm.contracted if c['relpath'] == rel for t in (set(c['tags']) | set(tt for x in c['ensures'] for tt in clause_tags(x, c['tags']))))
+        if prop == 'C01' or prop in file_tags or not file_tags:
+            undecided.append('%s::%s has no contract and does not verify on its own (%s)' % (rel, e['fn'][2], e['kind'][:80]))
     names_seen = set(r.breakdown.keys())
     # functions of the repository that have no contract (new helpers introduced by a refactoring, mostly): a caller that fails
     # to verify may only be failing because the callee says nothing -> undecided, never an alarm
